@@ -37,7 +37,17 @@ func TestC20Race(t *testing.T) {
 	var wg sync.WaitGroup
 	sem := make(chan struct{}, 8)
 	start := time.Now()
+	// wall-clock budget for LAUNCHING iterations (this pass is sampling anyway): on a tree whose store
+	// deadlocks under this load every iteration lasts as long as the request timeouts, and the
+	// exhaustive part, not this one, is what reports that
+	budget := 90 * time.Second
+	if thorough() {
+		budget = 15 * time.Minute
+	}
 	for it := 0; it < iters; it++ {
+		if time.Since(start) > budget {
+			break
+		}
 		wg.Add(1)
 		sem <- struct{}{}
 		go func(it int) {
@@ -86,6 +96,6 @@ func TestC20Race(t *testing.T) {
 	}
 	wg.Wait()
 	sh.CleanupTemplate()
-	b, _ := json.Marshal(map[string]any{"iterations": done, "threads_per_iteration": len(threads), "wall_s": time.Since(start).Seconds()})
+	b, _ := json.Marshal(map[string]any{"planned": iters, "iterations": done, "threads_per_iteration": len(threads), "wall_s": time.Since(start).Seconds()})
 	os.WriteFile(out, b, 0o644)
 }
